@@ -14,8 +14,8 @@ PROFILE = dict(
     sizes=[1, 2, 3, 3, 4, 4, 5, 6, 8, 20],
     backends=["slurm", "slurm", "sge", "lsf", "local"],
     granularities=[1.0 / 1024, 1.0 / 16, 1.0, 1.0, 2.0],
-    weights=dict(faulted=0.3, status=5, run=1.5, start=2, finish=2.5, purge=0.5, acct_flush=0.5, modify_source=1.5, delete_output=1,
+    weights=dict(links=0.4, faulted=0.3, status=5, run=1.5, start=2, finish=2.5, purge=0.5, acct_flush=0.5, modify_source=1.5, delete_output=1,
                  touch_file=2, set_file=2, edit_spec=1, advance=1, tick=1, touch=0.6, reject_submit=0.6),
-    p_job_ok=0.85, p_hashing=0.5, p_huge=0.01, p_skew=0.5, p_no_outputs=0.15, p_epoch_zero=0.06,
+    p_job_ok=0.85, spec_variety=True, p_hashing=0.5, p_huge=0.01, p_skew=0.5, p_no_outputs=0.15, p_epoch_zero=0.06,
 )
 make_scenario = make({"C01"}, PROFILE, CmdScenario)
